@@ -434,7 +434,8 @@ fn opt_allow(rl: &mut Option<RateLimiter>, now: Instant) -> (res: bool)
                       ("frame-rest", "rest_same(*old(self), *final(self))"),
                       ("C04-C05-C06-C13-draw-effect",
                        "draw_effect(old(self).draw_target, final(self).draw_target, force_draw || old(self).state.finished(), now, "
-                       "(if old(self).state.status is DoneHidden { Seq::<LineType>::empty() } else { match old(self).draw_target.own() { Some(x) => fs_lines(old(self).style, old(self).state, x.0.w as u16), None => Seq::<LineType>::empty() } }), r)"),
+                       "(if old(self).state.status is DoneHidden { Seq::<LineType>::empty() } else { match old(self).draw_target.own() { Some(x) => fs_lines(old(self).style, old(self).state, x.0.w as u16), None => Seq::<LineType>::empty() } }), r)",
+                       ["C02", "C04", "C05", "C06", "C13"]),   # C02: a member's stored rendering is what its last draw request produced
                   ])),
         Fn(**dict(K.BAR_UPDATE_AND_DRAW, rewrites=[K.AORD(1), K.TRACKERS_TICK],
                   proofs=[(r"let _ = self\.draw\(false, now\);", "at", """let ghost a = self.draw_target; let ghost fin = self.state.finished();
